@@ -4,6 +4,7 @@ import Tftp.Props.C02
 import Tftp.Model.Net
 import Tftp.Lemmas.Net
 import Tftp.Lemmas.NetLoss
+import Tftp.Lemmas.NetLossW
 /-!
 # C04 — Loss tolerance
 
@@ -17,12 +18,14 @@ re-acknowledged (so a sender whose ACK was lost can go on), an accepted block re
 **Closed system.** `netRun` (`Model/Net.lean`) connects the two models through FIFO queues with a fault
 schedule. The fault-free case is proved for every file, block size and window size
 (`c14_fault_free_transfer` in `Props/C14.lean`). Safety holds under every fault schedule
-(`c04_closed_loop_safety`). That every schedule with fewer than `MAX_RETRIES` losses ends with a
-byte-identical copy is proved for lock-step transfers (windowsize 1, the RFC 1350 protocol), any file, any
-number of blocks, any duplications, together with the RFC's one exception
-(`c04_lockstep_loss_tolerance`); for windowsize >= 2 it is *not* proved - those schedules are enumerated
-against the real workers in the same closed loop (see DESIGN.md); `c04_closed_loop_partial` is the anchor
-of that enumeration.
+(`c04_closed_loop_safety`). That every schedule with fewer than `MAX_RETRIES` losses (and any
+duplications) ends with a byte-identical copy - together with the RFC's one exception - is proved for every
+window size, file and number of blocks: `c04_loss_tolerance` (`Lemmas/NetLossW.lean`); the lock-step case
+`c04_lockstep_loss_tolerance` (`Lemmas/NetLoss.lean`) was proved first and is kept. What is proved is "fewer
+than `MAX_RETRIES` losses in total", which implies the property's "fewer than `MAX_RETRIES` consecutive failed
+attempts" hypothesis only in one direction; schedules with more losses in total but never six in a row, and
+reordering/delay, are enumerated against the real workers (see DESIGN.md). `c04_closed_loop_partial` is the
+anchor of that enumeration.
 -/
 namespace Tftp
 
@@ -288,5 +291,53 @@ example : (netRun exLockSc exLockRc exLockFl 200 (netInit exLockSc exLockRc exLo
     (netRun exLockSc exLockRc exLockFl 200 (netInit exLockSc exLockRc exLockFl [1, 2, 3, 4, 5])).s.status = .failed ∧
     (netRun exLockSc exLockRc exLockFl 200 (netInit exLockSc exLockRc exLockFl [1, 2, 3, 4, 5])).na - 1 = 3 := by
   decide
+
+end Tftp
+
+namespace Tftp
+
+/-- **closed loop, liveness under loss - every window size**: for every file, every block size >= 1, every
+window size 1..65535 and every positive retransmission interval, and for every fault schedule that
+duplicates any datagrams in either direction and loses fewer datagrams in total than `MAX_RETRIES` (in
+particular any single lost DATA or ACK), the closed loop of the sender model and the receiver model reaches
+its end with the receiver ended successfully and its file byte-identical to the sender's; the sender has
+ended successfully too, or has given up - and that only if the final acknowledgement (ordinal `na - 1`, the
+last the receiver emitted) is among the lost ones: the exception RFC 1350 permits. No bound on the number of
+blocks. The proof (`Lemmas/NetLossW.lean`) is an inductive invariant over `netStep` with ghost block numbers
+for everything in flight, an abstract run of the receiver over the DATA still to be delivered (`willAck`: an
+acknowledgement inside the sender's window is on its way), the lemma that a loss-free burst of the whole
+window always produces one (`willAck_burst`), a debt counter (every quiescent time-out is paid for by a
+counted loss) and one numeric termination measure. -/
+theorem c04_loss_tolerance (sc : SCfg) (rc : RCfg) (hb : 0 < sc.b) (hw1 : 1 ≤ sc.w) (hw : sc.w < 65536)
+    (hrep : sc.rep = 1) (ht : 0 < sc.timeout) (hrb : rc.b = sc.b) (hrw : rc.w = sc.w) (hrrep : rc.rep = 1)
+    (fl : Faults) (hbudget : fl.dropData.length + fl.dropAck.length < Gen.maxRetries) (f : Bytes) :
+    ∃ fuel,
+      (netRun sc rc fl fuel (netInit sc rc fl f)).r.status = .ok ∧
+      (netRun sc rc fl fuel (netInit sc rc fl f)).r.win.file.content = f ∧
+      ((netRun sc rc fl fuel (netInit sc rc fl f)).s.status = .ok ∨
+        ((netRun sc rc fl fuel (netInit sc rc fl f)).s.status = .failed ∧
+          fl.dropAck.contains ((netRun sc rc fl fuel (netInit sc rc fl f)).na - 1) = true)) :=
+  loss_tolerance sc rc ⟨⟨hb, hw1, hw, hrep, hrb, hrw, hrrep⟩, ht⟩ fl hbudget f
+
+/-- in particular, the loss of any one DATA datagram (no other fault) never fails a transfer: both sides end
+successfully with identical files -/
+theorem c04_single_data_loss (sc : SCfg) (rc : RCfg) (hb : 0 < sc.b) (hw1 : 1 ≤ sc.w) (hw : sc.w < 65536)
+    (hrep : sc.rep = 1) (ht : 0 < sc.timeout) (hrb : rc.b = sc.b) (hrw : rc.w = sc.w) (hrrep : rc.rep = 1)
+    (k : Nat) (f : Bytes) :
+    ∃ fuel,
+      (netRun sc rc ⟨[k], [], [], []⟩ fuel (netInit sc rc ⟨[k], [], [], []⟩ f)).s.status = .ok ∧
+      (netRun sc rc ⟨[k], [], [], []⟩ fuel (netInit sc rc ⟨[k], [], [], []⟩ f)).r.status = .ok ∧
+      (netRun sc rc ⟨[k], [], [], []⟩ fuel (netInit sc rc ⟨[k], [], [], []⟩ f)).r.win.file.content = f := by
+  obtain ⟨fuel, h1, h2, h3⟩ := c04_loss_tolerance sc rc hb hw1 hw hrep ht hrb hrw hrrep ⟨[k], [], [], []⟩
+    (by show 1 + 0 < Gen.maxRetries; decide) f
+  refine ⟨fuel, ?_, h1, h2⟩
+  rcases h3 with h3 | ⟨_, h4⟩
+  · exact h3
+  · simp at h4
+
+/-- the hypotheses of `c04_loss_tolerance` are met by the windowed example above (`exSc`, `exRc`, `exFl`: one
+DATA and one ACK lost, windowsize 2), whose run is evaluated there -/
+example : 0 < exSc.b ∧ 1 ≤ exSc.w ∧ exSc.w < 65536 ∧ exSc.rep = 1 ∧ 0 < exSc.timeout ∧ exRc.b = exSc.b ∧
+    exRc.w = exSc.w ∧ exRc.rep = 1 ∧ exFl.dropData.length + exFl.dropAck.length < Gen.maxRetries := by decide
 
 end Tftp
